@@ -211,7 +211,7 @@ manifest = {
                   "(parglare is an editable install of /repo)",
         "baseline_off_cmd": "cd /repo && /venv/bin/python -m pytest -ra -q -p "
                             "no:cacheprovider --timeout=900 "
-                            "--continue-on-collection-errors",
+                            "--continue-on-collection-errors --junitxml=<file>",
         "source_commits": [],
         "add_only": True,
     },
